@@ -444,6 +444,17 @@ func (c *HostClient) Do(ctx context.Context, req *protocol.Request, resp *protoc
 		}
 
 		wait := retry.Delay(attempts, err, retryCfg)
+		// The timeout of the whole request also bounds the wait between two attempts.
+		if reqTimeout := req.Options().RequestTimeout(); reqTimeout > 0 {
+			left := reqTimeout - time.Since(req.Options().StartTime())
+			if left <= 0 {
+				err = errTimeout
+				break
+			}
+			if wait > left {
+				wait = left
+			}
+		}
 		// Retry after wait time
 		time.Sleep(wait)
 	}
